@@ -43,7 +43,7 @@ func main() {
 	list := flag.Bool("list", false, "print every obligation")
 	noEvidence := flag.Bool("no-evidence", false, "do not write evidence (used for mutant runs)")
 	explain := flag.String("explain", "", "re-run the obligation recorded in a violation file")
-	refactor := flag.String("refactor", "", "apply a behaviour-preserving transformation (rename-locals|shift-lines|swap-operands) to the scratch copy given by -repo and exit")
+	refactor := flag.String("refactor", "", "apply a behaviour-preserving transformation (rename-locals|shift-lines|swap-operands|invert-if|hoist-init|wrap-else) to the scratch copy given by -repo and exit")
 	mutOnly := flag.Bool("mutants", false, "only run the mutant catalogue of the property and report checker sensitivity")
 	flag.Parse()
 	seed, _ := strconv.ParseInt(envOr("VERIF_SEED", "0"), 10, 64)
@@ -129,6 +129,9 @@ func main() {
 			extra["alternate_build_configs"] = cfgs
 			if !*noEvidence {
 				sens = runMutants(id, *repo, *root)
+				if rb := runRefactorings(id, *repo, *root); rb != nil {
+					extra["checker_robustness"] = rb
+				}
 			}
 		}
 		if *list {
